@@ -24,7 +24,9 @@ fn lt<'a, T: Queryable>(lhs: State<'a, T>, rhs: State<'a, T>) -> bool {
     let cmp = |lhs: &T, rhs: &T| {
         let lhs_f64 = lhs.as_f64().or_else(|| lhs.as_i64().map(|v| v as f64));
         let rhs_f64 = rhs.as_f64().or_else(|| rhs.as_i64().map(|v| v as f64));
-        if let (Some(lhs_num), Some(rhs_num)) = (lhs_f64, rhs_f64) {
+        if let (Some(lhs_int), Some(rhs_int)) = (lhs.as_i64(), rhs.as_i64()) {
+            lhs_int < rhs_int
+        } else if let (Some(lhs_num), Some(rhs_num)) = (lhs_f64, rhs_f64) {
             lhs_num < rhs_num
         } else if let (Some(lhs), Some(rhs)) = (lhs.as_str(), rhs.as_str()) {
             lhs < rhs
@@ -60,8 +62,10 @@ fn eq_json<T: Queryable>(lhs: &T, rhs: &T) -> bool {
     let lhs_f64 = lhs.as_f64().or_else(|| lhs.as_i64().map(|v| v as f64));
     let rhs_f64 = rhs.as_f64().or_else(|| rhs.as_i64().map(|v| v as f64));
 
-    if let (Some(lhs_num), Some(rhs_num)) = (lhs_f64, rhs_f64) {
-        (lhs_num - rhs_num).abs() < f64::EPSILON
+    if let (Some(lhs_int), Some(rhs_int)) = (lhs.as_i64(), rhs.as_i64()) {
+        lhs_int == rhs_int
+    } else if let (Some(lhs_num), Some(rhs_num)) = (lhs_f64, rhs_f64) {
+        lhs_num == rhs_num
     } else {
         lhs == rhs
     }
